@@ -10,6 +10,8 @@ import Gojq.Proofs.RoundTripLexGaps
 import Gojq.Proofs.RoundTripImage
 import Gojq.Proofs.RoundTripImage6
 import Gojq.Proofs.RoundTripStrLit
+import Gojq.Proofs.LexImage4
+import Gojq.Proofs.RoundTripImageProgram
 namespace Gojq.RefTerm
 open Gojq
 
@@ -34,12 +36,27 @@ theorem roundtrip_program (p : Program) (hp : PrintableProgram p = true) :
   rw [tokensOf_render _ (spaced_program p hp)]
   exact pProgram_items p hp
 
-/-- FOR EVERY SOURCE THE REFERENCE PARSER ACCEPTS (whose tokens are well-formed, which is decidable
-    and holds of everything the lexer delivers on the streams): print the AST, lex, parse — the
-    same AST -/
-theorem roundtrip_of_accepted (src : Bytes) (f : Nat) (q : Query) (hg : goodB (tokensOf src) = true)
+/-- FOR EVERY SOURCE THE REFERENCE PARSER ACCEPTS: print the AST, lex, parse — the same AST.  No
+    side condition: what the lexer delivers is well-formed (`goodB_tokensOf`), what the reference
+    parser builds from it is Printable (`refParse_printable`). -/
+theorem roundtrip_of_accepted (src : Bytes) (f : Nat) (q : Query)
     (h : refParseQ f (tokensOf src) = some q) :
     ∃ F, ∀ f', F ≤ f' → refParseQ f' (tokensOf (printQ q)) = some q :=
-  roundtrip_printable q (refParse_printable f _ q (good_of_goodB _ hg) h)
+  roundtrip_printable q (refParse_printable f _ q (good_of_goodB _ (goodB_tokensOf src)) h)
+
+/-- what the reference parser returns on any source is Printable -/
+theorem printable_of_accepted (src : Bytes) (f : Nat) (q : Query)
+    (h : refParseQ f (tokensOf src) = some q) : Printable q = true :=
+  refParse_printable f _ q (good_of_goodB _ (goodB_tokensOf src)) h
+
+/-- what the reference parser returns on any program source is a Printable program -/
+theorem printableProgram_of_accepted (src : Bytes) (f : Nat) (p : Program) (h : refParseF f src = some p) :
+    PrintableProgram p = true :=
+  pProgram_printable f _ p (good_of_goodB _ (goodB_tokensOf src)) h
+
+/-- FOR EVERY PROGRAM SOURCE THE REFERENCE PARSER ACCEPTS: print, lex, parse — the same program -/
+theorem roundtrip_program_of_accepted (src : Bytes) (f : Nat) (p : Program) (h : refParseF f src = some p) :
+    ∃ F, ∀ f', F ≤ f' → refParseF f' (printProgram p) = some p :=
+  roundtrip_program p (printableProgram_of_accepted src f p h)
 
 end Gojq.RefTerm
